@@ -189,6 +189,78 @@ def count_lies():
     return out
 
 
+def palindromic_message(flag, dest):
+    """a signal whose two length fields read the same in either byte order (header array of 0x00010100 bytes thanks to
+    a long object path, no body), written big-endian under the given byte-order flag: every reader that takes a flag
+    other than 'l' for big-endian frames and parses it alike; readers that disagree about the flag do not"""
+    want = 0x00010100
+    for n in range(65600, 65800):
+        path = '/' + 'p' * n
+        raw = refwire.msg(4, 90, [('interface', 'a.b'), ('member', 'S'), ('destination', dest), ('path', path)], le=False)
+        import struct
+        if struct.unpack('>I', raw[12:16])[0] == want:
+            return bytes([flag]) + raw[1:]
+    raise core.Machinery('no palindromic header length found')
+
+
+def bus_isolation(chk, rng, thorough):
+    """hostile bytes from one connection of the built-in bus must cost that connection only: after each of them a
+    third client's signal still reaches the victim's callback (real bus, real victim and sender over in-memory links)"""
+    from txdbus import message as _m
+    net = fakes.BusNet()
+    v, c = net.add_client(), net.add_client()
+    net.run()
+    vconn, cconn = net.clients[v][0], net.clients[c][0]
+    got = []
+    vconn.addMatch(lambda m: got.append(m.body[0]), mtype='signal', interface='org.ex.Probe', member='Probe')
+    net.run()
+    vname = vconn.busName
+
+    def probe(i):
+        cconn.sendMessage(_m.SignalMessage('/probe', 'Probe', 'org.ex.Probe', destination=vname, signature='u', body=[i]))
+        net.run()
+        return bool(got) and got[-1] == i
+    base = refwire.msg(4, 91, [('path', '/h'), ('interface', 'org.ex.H'), ('member', 'Hostile'), ('destination', vname)], 's', ['payload'])
+    inputs = [('flag %r with palindromic lengths' % bytes([f]), palindromic_message(f, vname)) for f in (ord('X'), ord('b'), 0, 255, ord('L'))]
+    muts = mutations(rng, base, thorough)
+    inputs += rng.sample(muts, min(len(muts), 400 if thorough else 80))
+    assert probe(0), 'probe does not arrive on the undisturbed bus'
+    recs, names = [], []
+    h = None
+    for i, (name, raw) in enumerate(inputs, 1):
+        if h is None or net.clients[h][3].disconnecting:
+            h = net.add_client()
+            net.run()
+        bp = net.clients[h][2]
+        try:
+            bp.dataReceived(raw)
+        except Exception:            # Twisted drops the connection of the peer that sent it
+            net.clients[h][3].loseConnection()
+            bp.connectionLost(fakes.conn_lost())
+            h = None
+        try:
+            net.run()
+            ok = probe(i)
+            how = 'probe delivered' if ok else 'probe lost'
+        except Exception as ex:
+            ok, how = False, 'raised ' + type(ex).__name__
+        recs.append({'before': {'outcome': 'value', 'digest': 'probe delivered'},
+                     'after': {'outcome': 'value' if ok else 'exception', 'digest': how}})
+        names.append(name)
+        if not ok:
+            break
+    itr = [[({'n': 'Init'}, {'rec': r})] for r in recs]
+    cc = 'CONSTANTS\n MaxLen = 1\n Alphabet = {0}\n ZeroOK = FALSE\n Fuel = 10\n'
+    rej, stt = core.validate_traces('MC_Decoder', OBS, itr, {}, cfg_consts=cc, initpred='Dummy /\\ TraceIsolated', nproc=2)
+    chk.states += stt['states']
+    chk.transitions += stt['transitions']
+    chk.traces += len(itr) - len(rej)
+    chk.notes['bus_isolation_inputs'] = len(recs)
+    for ti, _, _ in rej[:3]:
+        chk.violation('after hostile bytes (%s) from another connection the bus no longer delivers to the victim: %s' % (
+            names[ti], recs[ti]['after']['digest']), dict(kind='code->spec bus isolation', module='c05', input=names[ti], rec=recs[ti]))
+
+
 def run_cpu_child(cases):
     """decode the cases in a child with RLIMIT_CPU; returns recs (the case the child died in is
     recorded as outcome 'killed')"""
@@ -317,6 +389,7 @@ def run(tier, seed):
         j, after_n, r = iso[ti]
         chk.violation('valid message %d decodes differently after %d hostile inputs were decoded in the same process: %r -> %r' % (
             j, after_n, r['before'], r['after']), dict(kind='code->spec isolation', module='c05', rec=r, after_hostile_inputs=after_n))
+    bus_isolation(chk, rng, thorough)
     # ---- canary
     bad = dict(recs[0], outcome='budget', mem_kb=0)
     rej, _ = core.validate_traces('MC_Decoder', OBS, [[({'n': 'Init'}, {'rec': bad})]], {}, cfg_consts=cc,
